@@ -23,7 +23,8 @@ RULE = ('Kekule and aromatic molecules / reactions from corpus, curated list and
         "modulo the readers' per-line whitespace normalisation, record sequences by index; monitor: reach counter on the "
         'charge maps; non-trivial = record with charge / isotope / radical / stereo / metadata, distinct by (format, record)')
 ASSUMPTIONS = ['CachedMethods compatibility shim', 'readers are opened with calc_cis_trans=True (configuration of double bonds is '
-               'taken from coordinates only then)', 'V2000 limits: atom numbers and counts <= 999',
+               'taken from coordinates only then); records with atom labels are read once more with the default options and their tetrahedral / allene '
+               'descriptors compared', 'V2000 limits: atom numbers and counts <= 999',
                'metadata lines that are themselves record syntax ($$$$, "> <...>", $DTYPE, $RFMT, $MFMT, "]]>") are outside the claim']
 FORMATS = ['sdf', 'esdf', 'rdf', 'erdf', 'mrv']
 CONFIG = {
